@@ -5,7 +5,19 @@ import logging
 import os
 import sys
 
-logging.disable(logging.CRITICAL)
+
+
+class _Swallow(logging.Handler):
+    """Logging stays ENABLED while the checks run - log records are created, the library's logger filters run and every message is formatted - but nothing
+    is written anywhere: code on the logging path is part of the behaviour (a filter or a message that raises makes the call raise)."""
+
+    def emit(self, record):
+        record.getMessage()         # (an exception raised here reaches the caller of the logging call)
+
+
+logging.getLogger().handlers[:] = [_Swallow()]
+logging.getLogger().setLevel(logging.WARNING)       # ahbicht's own loggers set themselves to DEBUG; third-party libraries stay quiet
+logging.captureWarnings(True)
 _REPO = os.environ.get("AHBICHT_REPO", "/repo")
 if sys.path[0] != _REPO + "/src":
     sys.path.insert(0, _REPO + "/src")
